@@ -146,7 +146,18 @@ def violation_for(data, text, as_bytes, preserve, base_on, via_cli=None):
         flags = [] if preserve else ['--no-preserve-shebang']
         if not base_on:
             flags += [f for f, kw, val in clidrv.PLAIN_FLAGS if (kw in pm.DEFAULT_ON) != (kw in on) and kw != 'preserve_shebang'] + ['--no-remove-annotations']
-        o = clidrv.run(flags + ['-'], stdin=data, force_env='1')
+        if via_cli == 'file':
+            import os
+            import tempfile
+            fd, path = tempfile.mkstemp(prefix='verif-c16-', suffix='.py', dir=os.environ.get('VERIF_SCRATCH', '/var/tmp'))
+            try:
+                with os.fdopen(fd, 'wb') as f:
+                    f.write(data)
+                o = clidrv.run(flags + [path], stdin=b'', force_env='1')
+            finally:
+                os.unlink(path)
+        else:
+            o = clidrv.run(flags + ['-'], stdin=data, force_env='1')
         if ref_exc is not None:
             if o.exit == 0:
                 return ('rejected-source-accepted', ctx + '\n%r' % o), 'rejected'
@@ -263,6 +274,8 @@ def run_task(task):
             for preserve in (True, False):
                 for base in bases:
                     one(res, key, data, text, True, preserve, base, 'stdin')
+                    if base:
+                        one(res, key, data, text, True, preserve, base, 'file')
         res.sample({'source': repr(data[:120])}, 1)
     return res
 
